@@ -19,6 +19,12 @@ pub fn c19(cx: &Cx) -> i32 {
     let mut rep = cx.report("C19");
     error_isolation_rule(cx, &mut rep, "C19");
     dump_flag_rule(cx, &mut rep);
+    // what is generated for an entry must not depend on its dump flag before the builder has run: which helper attributes
+    // are read (and removed) is decided from the kinds of the entries alone
+    match crate::gate::gate_model(&cx.ix) {
+        Ok(_) => rep.pass("DM-gate"),
+        Err(e) => rep.fail(if e.starts_with("recording the derived traits") { "DM-gate" } else { "unanalysable" }, "gate", "gate-model", &e, "item_type.rs HelperAttributeKinds", json!({})),
+    }
     // impl items: with dump the error message is formatted from the very tokens returned without dump
     let ix = &cx.ix;
     if let Some(f) = impl_builder(ix) {
@@ -330,7 +336,7 @@ pub fn c14(cx: &Cx) -> i32 {
         let outs = ev.call_fn(St::new(), &im, Some(sym("HelperAttributeKinds", "kinds")), vec![sym("Attribute", "attr")]);
         rep.unanalysable(&im.qual, &ev.unsupported.borrow());
         match gate_model(ix) {
-            Err(e) => rep.fail("unanalysable", "gate", "gate-model", &e, &site(&im), json!({})),
+            Err(e) => rep.fail(if e.starts_with("recording the derived traits") { "DM-gate" } else { "unanalysable" }, "gate", "gate-model", &e, &site(&im), json!({})),
             Ok(g) => {
                 // names the predicate knows
                 let mut names: BTreeMap<String, Vec<(St, Flow)>> = BTreeMap::new();
